@@ -79,6 +79,8 @@ class Link(ModelElement):
             if interfaces is None or len(interfaces) == 0 or (not isinstance(interfaces, tuple) and
                                                               not isinstance(interfaces, list)):
                 raise TopologyException("When creating new links you must specify the list of interfaces to connect.")
+            if any(not isinstance(i, Interface) for i in interfaces):
+                raise TopologyException("Links connect interfaces only.")
             self._interfaces = interfaces
             sliver = NetworkLinkSliver()
             sliver.node_id = self.node_id
